@@ -89,6 +89,12 @@ def harness(S, spec):
             n = pick('n_' + f, len(pool) + 1, 'lists')
             if n:
                 obj[f] = pool[:n]
+                # an argument vector may repeat a token (-v -v, two options
+                # with the same value): repetition is part of the value
+                if f == 'args' and spec.get('vary') == 'lists' and \
+                        S.flag('args_repeat_a_token'):
+                    obj[f] = pool[:n] + [pool[0]] + (['-z', pool[0]]
+                                                     if n > 1 else [])
         if opt('has_ephemeral', 'nested'):
             obj['ephemeral_ports'] = {}
             if opt('eph_tcp', 'nested'):
